@@ -14,7 +14,7 @@ META = {
     "decided": [
         "11.a index_of(i, size) = i mod size for |i| <= 2^62 and every table size that occurs in the source (engine B), no overflow",
         "11.b half-year / season / month: next(n) hands the constructor exactly year*size+index+n, refuses targets outside 1..9999 (engine B; hence next(0)=x, additivity, inverse)",
-        "11.c solar term: from_index(y,i).next(n) = from_index(y,i+n) = term 24y+i+n, incl. year carry both ways",
+        "11.c solar term: from_index(y,i).next(n) = from_index(y,i+n) = term 24y+i+n, incl. year carry both ways, for every step whose target lies in a year >= 1",
         "11.d every LoopTyme-backed cycle type: from_index(i).next(n) has index (i+n) mod N, size N from the cycle's definition",
         "11.e lunar month: next(n) moves by exactly n on the month line of ANY leap table (hence identity, additivity, inverse)",
         "11.f lunar year, sexagenary year: year+n, refusal outside -1..9999; civil year: year+n, refusal outside 1..9999",
